@@ -182,6 +182,11 @@ def run(ctx, rep, tier="quick"):
                   [("self._allow_duplicates", lambda a: a[0] == "truth" and a[1] == "self._allow_duplicates" and a[2] is True),
                    ("trial_id in self._config_for_trial_id", lambda a: a[0] == "in" and a[2] == "self._config_for_trial_id" and a[3] is True)],
                   "with allow_duplicates=True the failed configuration is not black-listed and can be suggested again")
+    mf = ctx.P.method("ModelStateTransformer", "mark_trial_failed")
+    nodes = [n for n, c in call_nodes(ctx, mf, lambda c: fn_name(c) == "append")]
+    require_guard(ctx, rep, "S4", mf, "ModelStateTransformer.mark_trial_failed: the trial is appended to failed_trials | it is not listed yet", nodes,
+                  [("trial_id not in failed_trials", lambda a: a[0] == "in" and a[3] is False and a[1] == "trial_id")],
+                  "a failed trial is never recorded as failed (its configuration is not black-listed)")
     # the NaN record of a failed job carries the identity of the pending slot it stands for (the bracket checks it)
     rf = ctx.P.method("SynchronousHyperbandScheduler", "_report_as_failed")
     mk = [x for x in walk_shallow(rf.node) if isinstance(x, ast.Call) and fn_name(x) == "SlotInRung"]
